@@ -351,6 +351,44 @@ impl Monitor for C17 {
                     }
                     Err(m) => out.inconclusive = Some(format!("unrolled twin of {} failed: {}", cfg.describe(), short(&m, 120))),
                 }
+                // the same equivalence in TRAINING mode, with dropout configured on the looped
+                // layers (the masks are drawn from a fixed seed, per call): the training loss of
+                // one learn() step on one sample is the objective of the training-mode forward
+                // pass taken before the step, and must be the same for both networks
+                if idx % 2 == 0 {
+                    let mut cfg_d = cfg.clone();
+                    let mut plain_d = plain.clone();
+                    for j in a..=b {
+                        cfg_d.layers[j].set_dropout(Some(0.5));
+                    }
+                    for j in a..(a + (iters + 1) * (b - a + 1)) {
+                        plain_d.layers[j].set_dropout(Some(0.5));
+                    }
+                    let n_out = cfg.shapes().map(|s| s.last().unwrap().1).unwrap();
+                    let target = if matches!(cfg.layers.last(), Some(LCfg::Dense { .. })) { neurons::tensor::Tensor::single(vec![0.25; n_out.count()]) } else { tensor_of(n_out, &vec![0.25; n_out.count()]) };
+                    let step = |c: &NetCfg, p: &[P]| -> Result<f32, String> {
+                        let mut n = build(c, Some(p))?;
+                        n.set_objective(lib_obj(Obj::MSE), None);
+                        n.set_optimizer(OptCfg::Sgd { lr: 0.001, decay: None }.build());
+                        let xin = tensor_of(c.input, &x);
+                        guard(|| n.learn(&vec![&xin], &vec![&target], None, 1, 1, None).0[0])
+                    };
+                    match (step(&cfg_d, &params), step(&plain_d, &ps)) {
+                        (Ok(l1), Ok(l2)) => {
+                            out.count("overwrite_vs_unrolled_comparisons_in_training_mode_with_dropout", 1);
+                            if l1.to_bits() != l2.to_bits() && !(l1.is_nan() && l2.is_nan()) {
+                                out.viol(
+                                    "loop:overwrite-differs-from-unrolled:training",
+                                    format!("{} with dropout 0.5 on the looped layers: the training-mode forward pass gives loss {:e}, the plain network with layers {}..{} repeated {} times gives {:e}", cfg.describe(), l1, a, b, iters + 1, l2),
+                                    case_json(&cfg, &params, &x),
+                                );
+                            }
+                        }
+                        (Err(m1), Err(_)) => out.cover("training_mode_twins_both_refused", short(&m1, 50)),
+                        (Err(m), Ok(_)) => out.viol("loop:overwrite-differs-from-unrolled:training", format!("{} with dropout on the looped layers: learn() panicked ({}), on the unrolled plain network it does not", cfg.describe(), short(&m, 120)), case_json(&cfg, &params, &x)),
+                        (Ok(_), Err(m)) => out.cover("training_mode_unrolled_twin_refused", short(&m, 50)),
+                    }
+                }
             }
         }
         if idx < 5 {
